@@ -85,7 +85,7 @@ pub fn store_then_load<V: Value>(m: &mut Memory<V>, address: u64, value: V) -> (
     requires
         old(m).wf(), val_ok(value), address + vlen(value) <= u64::MAX,
     ensures
-        /*@roundtrip*/ r matches Some(v) && v.vbits() == value.vbits()
+        /*@roundtrip*/ r matches Some(v) && val_ok(v) && v.vbits() == value.vbits()
             && forall|i: int| 0 <= i < vlen(value) ==> #[trigger] vbyte(old(m).endian, v, i) == vbyte(old(m).endian, value, i),
         /*@wf*/ final(m).wf(),
 {
@@ -108,6 +108,35 @@ pub fn store_then_load<V: Value>(m: &mut Memory<V>, address: u64, value: V) -> (
         }
     }
     match l { Ok(o) => o, Err(_) => None }
+}
+
+/// for V = il::Constant the value loaded back IS the value stored (same width, same number): the
+/// byte string determines the number (lemma_le_bytes_inj) and BigUints with the same value are equal
+pub fn store_then_load_constant(m: &mut Memory<il::Constant>, address: u64, value: il::Constant) -> (r: Option<il::Constant>)
+    requires
+        old(m).wf(), val_ok(value), address + vlen(value) <= u64::MAX,
+    ensures
+        /*@same*/ r == Some(value),
+        /*@wf*/ final(m).wf(),
+{
+    let ghost e = m.endian;
+    let r = store_then_load(m, address, value.clone());
+    proof {
+        broadcast use crate::axiom_biguint_ext;
+        let v = r->Some_0;
+        let n = vlen(value);
+        assert(8 * n == value.bits as nat);
+        assert(v.le_bytes() =~= value.le_bytes()) by {
+            assert forall|j: int| 0 <= j < n implies v.le_bytes()[j] == value.le_bytes()[j] by {
+                match e {
+                    Endian::Little => { assert(vbyte(e, v, j) == vbyte(e, value, j)); },
+                    Endian::Big => { assert(vbyte(e, v, n - 1 - j) == vbyte(e, value, n - 1 - j)); },
+                }
+            }
+        }
+        lemma_le_bytes_inj(v.value@, value.value@, n);
+    }
+    r
 }
 
 /// clones are independent: a store through the original is not visible through a clone taken before
